@@ -17,7 +17,7 @@ pub fn mon() -> Mon {
         run,
         finish,
         replay,
-        rule: "Forged control requests for the 7 answerable command forms (Set Endpoint ID operations 0/1/3 with EID 0x01-0xFE, Get Endpoint ID, UUID, Version with every query byte, Message Types, Vendor selector < n) plus requests for unsupported commands and out-of-range operations/selectors, with requester address 0-127 (source EID = source address), responder address 0-127 (all 128x128 pairs per command form), every instance ID 0-31, on contexts with random valid configurations and random prior histories; one request in three is *retried* (processed two or three times, the last response judged). Every generated response is checked field by field against the REQUEST bytes: byte count == len-4, reported length, command code 0x0F, destination address == request source address with the write bit clear, source address == own address with bit 0 set, header version 1, destination EID == request source EID, source EID == own address, SOM/EOM/seq 1/1/0, control type, request bit clear, same command code, same instance ID, a completion-code byte, and an independently computed PEC. Whether a request is answered at all is not judged here (C13-C15 do, for their commands); a command form for which no response was ever observed makes the run inconclusive. Non-trivial = a response was judged; distinct = distinct (request, responder) hashes.",
+        rule: "Forged control requests for the 7 answerable command forms (Set Endpoint ID operations 0/1/3 with EID 0x01-0xFE, Get Endpoint ID, UUID, Version with every query byte, Message Types, Vendor selector < n) plus requests for unsupported commands and out-of-range operations/selectors, with requester address 0-127 (source EID = source address), responder address 0-127 (all 128x128 pairs per command form), every instance ID 0-31, one request in three with foreign transport flags (every message tag 0-7, tag owner, SOM/EOM/sequence), destination EID, datagram or reserved bit and a recomputed PEC, on contexts with random valid configurations and random prior histories; one request in three is *retried* (processed two or three times, the last response judged). Every generated response is checked field by field against the REQUEST bytes: byte count == len-4, reported length, command code 0x0F, destination address == request source address with the write bit clear, source address == own address with bit 0 set, header version 1, destination EID == request source EID, source EID == own address, SOM/EOM/seq 1/1/0, control type, request bit clear, same command code, same instance ID, a completion-code byte, and an independently computed PEC. Whether a request is answered at all is not judged here (C13-C15 do, for their commands); a command form for which no response was ever observed makes the run inconclusive. Non-trivial = a response was judged; distinct = distinct (request, responder) hashes.",
         assumptions: &[
             "requests whose SMBus source address and source endpoint ID name different requesters, and EIDs 0x00/0xFF in Set Endpoint ID, are outside the quantifier and not generated",
             "tag-owner/tag bits and the datagram/reserved bits of the response are not constrained by the statement",
@@ -193,7 +193,33 @@ fn rb_len(seed: u64) -> usize {
     }
 }
 
+/// One request in three carries transport flags (SOM/EOM/sequence/TO/tag), a destination EID, a
+/// datagram or reserved bit as another implementation might set them, with a recomputed PEC. The
+/// statement does not say such a request must be answered (and that is not judged); when it is, the
+/// response has to be the well-formed, correlated packet all the same.
 fn make_request(form: u8, rng: &mut Rng, own: u8, src: u8, iid: u8, nsets: usize) -> Vec<u8> {
+    let mut req = make_plain_request(form, rng, own, src, iid, nsets);
+    if req.len() > 10 && rng.chance(1, 3) {
+        match rng.below(4) {
+            0 => req[7] = (req[7] & 0xF8) | (rng.byte() & 7),
+            1 => req[7] = 0xC0 | (rng.byte() & 0x0F),
+            _ => req[7] = rng.byte(),
+        }
+        if rng.chance(1, 4) {
+            req[5] = rng.byte();
+        }
+        if rng.chance(1, 4) {
+            req[9] |= 0x40;
+        }
+        if rng.chance(1, 6) {
+            req[9] |= 0x20;
+        }
+        crate::refmodel::forge::fix_pec(&mut req);
+    }
+    req
+}
+
+fn make_plain_request(form: u8, rng: &mut Rng, own: u8, src: u8, iid: u8, nsets: usize) -> Vec<u8> {
     match form {
         0 => ctrl_request(own, src, iid, false, 0x01, &[0, rng.range(1, 0xFE) as u8]),
         1 => ctrl_request(own, src, iid, false, 0x01, &[1, rng.range(1, 0xFE) as u8]),
